@@ -121,6 +121,67 @@ func escapeAll(s string) string {
 	return sb.String()
 }
 
+// ---- literal fallback: syntax that cannot form a construct is text. The
+// documents have no reference definition, so no bracketed label resolves, and
+// no bracket is followed by '(' or ':', so there is no inline link or
+// definition either; unmatched code fences, angle brackets that are no tag or
+// autolink, ampersands that start no reference and lone delimiter runs
+// between spaces stay literal too. Every token's reading is fixed by the
+// spec whatever its neighbours are (tokens are separated by spaces).
+var literalTokens = []string{
+	"[a]", "[a][]", "[a][b]", "![a]", "![a][]", "![a][b]", "[]", "[][]", "[a] [b]", "[[a]]", "[a][b][c]", "]", "[", "][", "[a", "b]", "![", "!", "[a]![b]",
+	"<", ">", "< a>", "<33>", "<a b='c>", "</a b>", "<!-->", "<!--->", "<!-- a--b -->", "<a@>", "<a:b>", "<http://a b>", "<?", "<![CDATA[x",
+	"&", "&amp", "&#;", "&#x;", "&#12345678;", "&#x1234567;", "&nosuch;", "&;", "&#a;",
+	"*", "**", "_", "***", "a_b", "a_b_c", "`", "``", "``` x", "\\a", "\\", "a\\",
+	"word", "foo", "é", "7", "x.y", "a/b",
+}
+
+func genLiteral(t *rapid.T) harness.Case {
+	nl := rapid.IntRange(1, 4).Draw(t, "lines")
+	var lines []string
+	for i := 0; i < nl; i++ {
+		var toks []string
+		toks = append(toks, []string{"w", "foo", "x1"}[rapid.IntRange(0, 2).Draw(t, "first")]) // a line starts with a word: no block start
+		for j, n := 0, rapid.IntRange(1, 6).Draw(t, "ntok"); j < n; j++ {
+			toks = append(toks, literalTokens[rapid.IntRange(0, len(literalTokens)-1).Draw(t, "tok")])
+		}
+		toks = append(toks, "z") // and ends with one: no trailing backslash or spaces
+		lines = append(lines, strings.Join(toks, " "))
+	}
+	// backtick strings must stay unmatched across the whole paragraph: keep at most one token with backticks
+	seenTick := false
+	for i, l := range lines {
+		fs := strings.Split(l, " ")
+		for j, f := range fs {
+			if strings.Contains(f, "`") {
+				if seenTick {
+					fs[j] = "q"
+				}
+				seenTick = true
+			}
+		}
+		lines[i] = strings.Join(fs, " ")
+	}
+	var md, exp string
+	x := html.EscapeString(strings.ReplaceAll(strings.Join(lines, "\n"), "\\\\", "\\"))
+	x = strings.ReplaceAll(x, "&#39;", "'")
+	switch rapid.IntRange(0, 3).Draw(t, "ctx") {
+	case 0:
+		md, exp = strings.Join(lines, "\n"), "<p>"+x+"</p>"
+	case 1:
+		md, exp = "> "+strings.Join(lines, "\n> "), "<blockquote><p>"+x+"</p></blockquote>"
+	case 2:
+		md, exp = "- "+strings.Join(lines, "\n  "), "<ul><li>"+x+"</li></ul>"
+	default:
+		md, exp = "# "+lines[0], "<h1>"+html.EscapeString(strings.ReplaceAll(lines[0], "\\\\", "\\"))+"</h1>"
+		exp = strings.ReplaceAll(exp, "&#39;", "'")
+	}
+	c := harness.Case{In: []byte(md)}
+	c.SetS("expected", exp)
+	c.SetI("nontrivial", 1)
+	return c
+}
+
 func genEscape(t *rapid.T) harness.Case {
 	atoms := []string{"a", "b", "Z", "7", "12", " ", " ", "é", "猫", "ß"}
 	for i := 0; i < len(asciiPunct); i++ {
@@ -344,6 +405,8 @@ func plan() harness.Plan {
 		{Name: "model", Quick: 40000, Thorough: 500000, Gen: genDoc(model.Small), Prop: prop, Rule: rule},
 		{Name: "escape_all", Quick: 40000, Thorough: 400000, Gen: genEscape, Prop: prop,
 			Rule: "a random text over letters, digits, non-ASCII and all 32 ASCII punctuation characters with every punctuation character backslash-escaped, as a paragraph, ATX heading, setext heading, link text and title, emphasis content and a list item inside a quote; expected = exactly that text; non-trivial = the text has punctuation"},
+		{Name: "literal_fallback", Quick: 30000, Thorough: 300000, Gen: genLiteral, Prop: prop,
+			Rule: "paragraphs, quoted and listed paragraphs and headings made of space-separated tokens that cannot form a construct (bracketed labels of every reference form in a document without definitions, unbalanced brackets, angle brackets that are no tag or autolink, ampersands that start no reference, lone delimiter runs, unmatched backtick strings); expected = the text itself, escaped"},
 		{Name: "code_verbatim", Quick: 40000, Thorough: 400000, Gen: genCode, Prop: prop,
 			Rule: "arbitrary lines (markdown syntax, leading spaces, fence-like runs, tabs) as the content of fenced and indented code blocks at the top level, in a quote, in list items, in a list in a quote and after a paragraph in an item, under LF/CRLF/CR; expected = the lines byte for byte"},
 		{Name: "model_large", Quick: 5000, Thorough: 80000, Gen: genDoc(model.Large), Prop: prop, Rule: "larger size bounds (depth 5, 7 blocks per container, 8 inlines per run): " + rule},
